@@ -3,6 +3,12 @@
 import json
 
 CLAIMED = {
+    "C13": {
+        "technique": "Lean 4 theorems about the connector model (argmin fold, corner point lists for all 16 direction pairs) over the translated locspec/calc_offset + document-level correspondence",
+        "text": "Machine-checked proof (Lean 4), for all rational boxes and points: the location search is an argmin with first-minimum ties — the chosen location(s) are candidates of the connector kind and no candidate (pair) is closer (argminFirst_minimal, closest_minimal, shortest_minimal), and every candidate lies on the box boundary (candidates_on_boundary); the h/v coordinate is the exact middle of the overlap interval (overlapMid_in_overlap); for all 16 pairs of edge directions and every corner-offset, a corner polyline starts and ends at the two endpoints, consists only of axis-parallel segments, leaves and enters along the edge normals (corner_rectilinear), degrades to the straight segment when an end has no edge direction (corner_without_dir), bends at calc_offset (corner_offset_z) and rejects a percent offset for U shapes (corner_u_needs_absolute). connector.rs is hand-modelled (Svgdx/Geom/Connector.lean) and compared attribute-for-attribute with transform_str over all relative placements, endpoint forms and connector kinds.",
+        "note": "Exact rationals for f32. h/v lines between boxes that do not overlap on the shared axis are outside the property's wording (no overlap to take the middle of); the model mirrors the code there and the oracle does not judge them. Removal of start/end/edge-type/corner-offset is checked by correspondence and oracle, not yet by a theorem.",
+        "design_ref": "DESIGN.md §7 C13",
+    },
     "C12": {
         "technique": "Lean 4 theorems over the translated box algebra (combine/intersect/expand/shrink) by induction on the reference list + document-level correspondence of the containment model",
         "text": "Machine-checked proof (Lean 4), for reference lists of any length and all rational boxes: the union encloses every listed box (unionAll_encloses) and a non-negative margin only grows it (expand_encloses), with the 1-4 margin values applied in CSS top/right/bottom/left order (trbl_css_order, expand_absolute, expand_ratio); a surrounding rect carries exactly the grown box (surround_rect_exact, over the AttrMap lemma library); a surrounding circle/ellipse reaches every corner up to the measured defect of the f32 SQRT_2 constant, 2/s^2 <= 1+1e-7 (sqrt2_defect, surround_circle_circumscribes, surround_ellipse_circumscribes); the intersection lies within every listed area and shrinking keeps it inside (intersectAll_within, shrink_within, inside_circle_inscribed, inscribed_square_in_circle); surround/inside/margin are removed (containment_attrs_removed); both at once is an error (both_is_error). The handle_containment string pipeline is a hand model tied by the doc/containment correspondence stream.",
